@@ -34,6 +34,11 @@ ExecCb(c) ==
                                "begin_deadbands", "deadband", "end_deadbands"}
     \/ c.k = "info" /\ c.n = "clear_restart_iin"
 
+\* Was the request on this line processed now?  A READ that is deferred (received during an
+\* unsolicited confirm wait) is answered later and is not "the request processed last" until then.
+RepliedOnLine(e) == \E i \in 1..Len(e.tx) : ~e.tx[i].uns /\ e.tx[i].fir /\ e.tx[i].seq = e.seq
+ProcessedNow(e) == e.fc # 1 \/ RepliedOnLine(e)
+
 Iin2Err(x) == x.iin.nofn \/ x.iin.unk \/ x.iin.param
 
 EventGroups  == {2, 4, 11, 22, 23, 32, 42, 111}
